@@ -58,10 +58,14 @@ _BORROW = {}
 def borrow(ctx, pid, rules, note):
     """Run property `pid`'s rule module on the same program (once per process) and take over the named rules, with their
     obligations and findings, into ctx: a rule that decides a clause of two properties is written once and reported by both."""
+    # a lender lends its OWN rules only: while it runs as a lender its own borrow () calls are skipped, so the borrow graph has depth one and cannot have cycles
+    if ctx.__dict__.get('_as_lender'):
+        return
     key = (pid, id(ctx.prog), ctx.tier)
     if key not in _BORROW:
         mod = importlib.import_module('rules.' + pid)
         c2 = Ctx(pid, ctx.tier, ctx.prog)
+        c2._as_lender = True
         try:
             mod.run(c2)
         except AnalysisBroken as e:
